@@ -517,8 +517,38 @@ structure Laws (T : Tables) (C : Codec B V) : Prop where
     (∀ l, l ∈ (T.view v).rraw → l ∉ (T.view v).clears → raw₁ l = raw l) →
     ∀ l, l ∈ (T.view v).wraw → l ∉ (T.view v).clears → C.wr v (C.rd v raw env) env raw₁ l = raw₁ l
 
+/-- the frame half of `Laws`. -/
+structure FrameLaws (T : Tables) (C : Codec B V) : Prop where
+  rd_frame : ∀ v, v < T.n → ∀ raw raw' env env',
+    (∀ l, l ∈ (T.view v).clears ++ (T.view v).rraw → raw l = raw' l) →
+    (∀ w, w ∈ (T.view v).rdeps → env w = env' w) → C.rd v raw env = C.rd v raw' env'
+  wr_frame : ∀ v, v < T.n → ∀ x env env' raw,
+    (∀ w, w ∈ (T.view v).wdeps → env w = env' w) → C.wr v x env raw = C.wr v x env' raw
+
+/-- the round-trip half of `Laws`, only at ONE parse `E` (of a file whose shared, un-owned lumps are `aux`):
+writing the true value of a view and reading it again gives the true value, and the writer leaves the
+lumps it shares with nobody's `to_clear` as they are.  (Nothing is asked about lumps that do not parse.) -/
+structure RoundTripAt (T : Tables) (C : Codec B V) (aux : Nat → B) (E : Nat → V) : Prop where
+  roundtrip : ∀ v, v < T.n → ∀ raw₁,
+    (∀ l, l ∈ (T.view v).rraw → l ∉ (T.view v).clears → raw₁ l = aux l) →
+    C.rd v (applyWr T C v (E v) E raw₁) E = E v
+  aux_stable : ∀ v, v < T.n → ∀ raw₁,
+    (∀ l, l ∈ (T.view v).rraw → l ∉ (T.view v).clears → raw₁ l = aux l) →
+    ∀ l, l ∈ (T.view v).wraw → l ∉ (T.view v).clears → C.wr v (E v) E raw₁ l = raw₁ l
+
+theorem Laws.frame {T : Tables} {C : Codec B V} (L : Laws T C) : FrameLaws T C := ⟨L.rd_frame, L.wr_frame⟩
+
 /-- `E` is the parse of the raw lumps: every view reads as `E v` when its dependencies read as `E`. -/
 def IsEnv (raw : Nat → B) (E : Nat → V) : Prop := ∀ v, v < T.n → C.rd v raw E = E v
+
+theorem Laws.at {T : Tables} {C : Codec B V} (L : Laws T C) {raw₀ : Nat → B} {E : Nat → V} (hE : IsEnv T C raw₀ E) :
+    RoundTripAt T C raw₀ E where
+  roundtrip := fun v hv raw₁ h => by
+    have := L.roundtrip v hv raw₀ E raw₁ h
+    rw [hE v hv] at this; exact this
+  aux_stable := fun v hv raw₁ h l hl hnc => by
+    have := L.aux_stable v hv raw₀ E raw₁ h l hl hnc
+    rw [hE v hv] at this; exact this
 
 /-- content invariant: cached values are the true ones; every uncached view (except `ex`, the one
 being written) still reads as the true one; lumps owned by no view are untouched. -/
@@ -552,7 +582,7 @@ theorem view_ge (v : Nat) (h : T.n ≤ v) : T.view v = default := by
 theorem rdeps_ge (v : Nat) (h : T.n ≤ v) : (T.view v).rdeps = [] := by
   rw [view_ge T v h]; rfl
 
-theorem access_invE (hfr : Frame T = true) (hra : RAcyclic T = true) (L : Laws T C)
+theorem access_invE (hfr : Frame T = true) (hra : RAcyclic T = true) (L : FrameLaws T C)
     (raw₀ : Nat → B) (E : Nat → V) (ex : Nat)
     (S : Nat → Prop) (hS : ∀ a, S a → ∀ w ∈ (T.view a).rdeps, S w) (hSn : ∀ a, S a → a < T.n) (hex : ¬ S ex)
     (f u : Nat) (s : St B V) (hu : S u) (hf : rrank T u < f) (h : InvE T C raw₀ E ex s) :
@@ -635,7 +665,7 @@ theorem main_mem_clears (hwf : WF T = true) (v : Nat) (hv : v < T.n) : (T.view v
   | cons a as => rw [hc] at h; simp at h; simp [h]
 
 theorem saveStep_invE (hwf : WF T = true) (ht : Topo T = true) (hfr : Frame T = true) (hra : RAcyclic T = true)
-    (L : Laws T C) (raw₀ : Nat → B) (E : Nat → V) (hE : IsEnv T C raw₀ E) (l : Nat) (s : St B V)
+    (L : FrameLaws T C) (raw₀ : Nat → B) (E : Nat → V) (R : RoundTripAt T C raw₀ E) (l : Nat) (s : St B V)
     (h : InvE T C raw₀ E T.n s) : InvE T C raw₀ E T.n (saveStep T C s l) := by
   cases hv : T.viewOfMain l with
   | none => rw [saveStep_none T C s l hv]; exact h
@@ -666,9 +696,9 @@ theorem saveStep_invE (hwf : WF T = true) (ht : Topo T = true) (hfr : Frame T = 
         | none => exact absurd hpw hne
         | some y => simp [St.env, hpw, h1.1 w y hpw]
       have hwr : applyWr T C v x0 ((writeDeps T C v (popSt s v)).env C) (writeDeps T C v (popSt s v)).raw
-          = applyWr T C v (C.rd v raw₀ E) E (writeDeps T C v (popSt s v)).raw := by
+          = applyWr T C v (E v) E (writeDeps T C v (popSt s v)).raw := by
         unfold applyWr
-        rw [L.wr_frame v hvn x0 _ E _ henv, hx0, hE v hvn]
+        rw [L.wr_frame v hvn x0 _ E _ henv, hx0]
       rw [hwr]
       obtain ⟨hown, hraw⟩ := frame_spec T hfr v hvn
       have haux : ∀ l, l ∈ (T.view v).rraw → l ∉ (T.view v).clears → (writeDeps T C v (popSt s v)).raw l = raw₀ l := by
@@ -678,7 +708,7 @@ theorem saveStep_invE (hwf : WF T = true) (ht : Topo T = true) (hfr : Frame T = 
         · exact h1.2.2 l' h'
       -- a lump outside `to_clear` of `v` is left as it was
       have hkeep : ∀ l', l' ∉ (T.view v).clears →
-          applyWr T C v (C.rd v raw₀ E) E (writeDeps T C v (popSt s v)).raw l' = (writeDeps T C v (popSt s v)).raw l' := by
+          applyWr T C v (E v) E (writeDeps T C v (popSt s v)).raw l' = (writeDeps T C v (popSt s v)).raw l' := by
         intro l' hnc
         unfold applyWr
         by_cases hws : l' ∈ (T.view v).main :: (T.view v).wraw
@@ -687,15 +717,14 @@ theorem saveStep_invE (hwf : WF T = true) (ht : Topo T = true) (hfr : Frame T = 
             rcases List.mem_cons.mp hws with e | e
             · exact absurd (e ▸ main_mem_clears T hwf v hvn) hnc
             · exact e
-          exact L.aux_stable v hvn raw₀ E _ haux l' this hnc
+          exact R.aux_stable v hvn _ haux l' this hnc
         · simp [hws]
       refine ⟨h1.1, fun w hwn _ hw => ?_, fun l' hl' => ?_⟩
       · simp only at hw
         by_cases hwv : w = v
         · rw [hwv]
           simp only
-          rw [L.roundtrip v hvn raw₀ E _ haux]
-          exact hE v hvn
+          exact R.roundtrip v hvn _ haux
         · simp only
           rw [← h1.2.1 w hwn hwv hw]
           apply L.rd_frame w hwn _ _ _ _ _ (fun _ _ => rfl)
@@ -714,8 +743,8 @@ theorem saveStep_invE (hwf : WF T = true) (ht : Topo T = true) (hfr : Frame T = 
 /-- **content**: after reading any views and saving, `E` is still the parse of the raw lumps, and lumps
 owned by no view are byte-identical. -/
 theorem content_all (hwf : WF T = true) (ht : Topo T = true) (hfr : Frame T = true) (hra : RAcyclic T = true)
-    (hl : LiveLoop T = true) (L : Laws T C) (raw₀ : Nat → B) (E : Nat → V) (hE : IsEnv T C raw₀ E)
-    (xs : List Nat) (hxs : ∀ u ∈ xs, u < T.n) :
+    (hl : LiveLoop T = true) (L : FrameLaws T C) (raw₀ : Nat → B) (E : Nat → V) (hE : IsEnv T C raw₀ E)
+    (R : RoundTripAt T C raw₀ E) (xs : List Nat) (hxs : ∀ u ∈ xs, u < T.n) :
     InvE T C raw₀ E T.n (save T C (accesses T C xs (init raw₀))) := by
   have h0 : InvE T C raw₀ E T.n (init raw₀ : St B V) :=
     ⟨fun v x hv => by simp [init] at hv, fun v hvn _ _ => hE v hvn, fun _ _ => rfl⟩
@@ -729,7 +758,7 @@ theorem content_all (hwf : WF T = true) (ht : Topo T = true) (hfr : Frame T = tr
       (by have := (racyclic_spec T hra u (hxs u hu)).1; unfold Tables.fuel; omega) ha
   rw [save_live T C hl]
   exact foldl_inv (InvE T C raw₀ E T.n) _ T.order _ h1
-    (fun a l _ ha => saveStep_invE T C hwf ht hfr hra L raw₀ E hE l a ha)
+    (fun a l _ ha => saveStep_invE T C hwf ht hfr hra L raw₀ E R l a ha)
 
 /-! ## 5. a second save is byte-identical -/
 
@@ -860,7 +889,7 @@ theorem access_invK (hfr : Frame T = true) (raw₀ : Nat → B) (E : Nat → V)
           exact h1.2 v hvn l hl
 
 theorem saveStep_facts (ht : Topo T = true) (hfr : Frame T = true) (hra : RAcyclic T = true)
-    (L : Laws T C) (raw₀ : Nat → B) (E : Nat → V) (l v : Nat) (x0 : V) (s : St B V)
+    (L : FrameLaws T C) (raw₀ : Nat → B) (E : Nat → V) (l v : Nat) (x0 : V) (s : St B V)
     (h : InvE T C raw₀ E T.n s) (hv : T.viewOfMain l = some v) (hp : s.parsed v = some x0) :
     x0 = E v ∧ InvE T C raw₀ E v (writeDeps T C v (popSt s v)) ∧
     (∀ w, w ∈ (T.view v).wdeps → (writeDeps T C v (popSt s v)).env C w = E w) ∧
@@ -890,7 +919,7 @@ theorem saveStep_facts (ht : Topo T = true) (hfr : Frame T = true) (hra : RAcycl
   exact ⟨hx0, h1, henv, S, hS1, hS2, hS3⟩
 
 theorem saveStep_invK (hwf : WF T = true) (hw : WritesAll T = true) (ht : Topo T = true) (hfr : Frame T = true)
-    (hra : RAcyclic T = true) (L : Laws T C) (hcan : Canon T C) (raw₀ : Nat → B) (E : Nat → V) (l : Nat) (s : St B V)
+    (hra : RAcyclic T = true) (L : FrameLaws T C) (hcan : Canon T C) (raw₀ : Nat → B) (E : Nat → V) (l : Nat) (s : St B V)
     (hE : InvE T C raw₀ E T.n s) (h : InvK T C raw₀ E s) : InvK T C raw₀ E (saveStep T C s l) := by
   cases hv : T.viewOfMain l with
   | none => rw [saveStep_none T C s l hv]; exact h
@@ -934,8 +963,8 @@ theorem saveStep_invK (hwf : WF T = true) (hw : WritesAll T = true) (ht : Topo T
 
 /-- both invariants after a whole run. -/
 theorem run_invK (hwf : WF T = true) (hw : WritesAll T = true) (ht : Topo T = true) (hfr : Frame T = true)
-    (hra : RAcyclic T = true) (hl : LiveLoop T = true) (L : Laws T C) (hcan : Canon T C) (raw₀ : Nat → B) (E : Nat → V)
-    (hE : IsEnv T C raw₀ E) (xs : List Nat) (hxs : ∀ u ∈ xs, u < T.n) :
+    (hra : RAcyclic T = true) (hl : LiveLoop T = true) (L : FrameLaws T C) (hcan : Canon T C) (raw₀ : Nat → B) (E : Nat → V)
+    (hE : IsEnv T C raw₀ E) (R : RoundTripAt T C raw₀ E) (xs : List Nat) (hxs : ∀ u ∈ xs, u < T.n) :
     InvK T C raw₀ E (save T C (accesses T C xs (init raw₀))) := by
   have e0 : InvE T C raw₀ E T.n (init raw₀ : St B V) :=
     ⟨fun v x hv => by simp [init] at hv, fun v hvn _ _ => hE v hvn, fun _ _ => rfl⟩
@@ -952,7 +981,7 @@ theorem run_invK (hwf : WF T = true) (hw : WritesAll T = true) (ht : Topo T = tr
       access_invK T C hfr raw₀ E (· < T.n) closed (fun _ h => h) T.fuel u a (hxs u hu) ha.2⟩
   rw [save_live T C hl]
   exact (foldl_inv (fun s' => InvE T C raw₀ E T.n s' ∧ InvK T C raw₀ E s') _ T.order _ h1
-    (fun a l _ ha => ⟨saveStep_invE T C hwf ht hfr hra L raw₀ E hE l a ha.1,
+    (fun a l _ ha => ⟨saveStep_invE T C hwf ht hfr hra L raw₀ E R l a ha.1,
       saveStep_invK T C hwf hw ht hfr hra L hcan raw₀ E l a ha.1 ha.2⟩)).2
 
 theorem owned_spec (l : Nat) (h : T.owned l = true) : ∃ v, v < T.n ∧ l ∈ (T.view v).clears := by
@@ -967,15 +996,15 @@ theorem idem_bytes (hwf : WF T = true) (hw : WritesAll T = true) (ht : Topo T = 
     (save T C (accesses T C xs (init (V := V) (save T C (accesses T C xs (init raw₀))).raw))).raw l
       = (save T C (accesses T C xs (init raw₀))).raw l := by
   -- first run
-  obtain ⟨_, e1b, e1c⟩ := content_all T C hwf ht hfr hra hl L raw₀ E hE xs hxs
+  obtain ⟨_, e1b, e1c⟩ := content_all T C hwf ht hfr hra hl L.frame raw₀ E hE (L.at hE) xs hxs
   obtain ⟨n1, c1, _, _⟩ := flush_all T C hwf hw ht hb hl raw₀ xs hxs
   have hE1 : IsEnv T C (save T C (accesses T C xs (init raw₀))).raw E :=
     fun v hv => e1b v hv (by omega) (n1 v)
-  have k1 := run_invK T C hwf hw ht hfr hra hl L hcan raw₀ E hE xs hxs
+  have k1 := run_invK T C hwf hw ht hfr hra hl L.frame hcan raw₀ E hE (L.at hE) xs hxs
   -- second run
-  obtain ⟨_, _, e2c⟩ := content_all T C hwf ht hfr hra hl L _ E hE1 xs hxs
+  obtain ⟨_, _, e2c⟩ := content_all T C hwf ht hfr hra hl L.frame _ E hE1 (L.at hE1) xs hxs
   obtain ⟨_, c2, _, _⟩ := flush_all T C hwf hw ht hb hl (save T C (accesses T C xs (init (V := V) raw₀))).raw xs hxs
-  have k2 := run_invK T C hwf hw ht hfr hra hl L hcan _ E hE1 xs hxs
+  have k2 := run_invK T C hwf hw ht hfr hra hl L.frame hcan _ E hE1 (L.at hE1) xs hxs
   have hsh := run_sh T C hl xs raw₀ (save T C (accesses T C xs (init (V := V) raw₀))).raw
   cases ho : T.owned l with
   | false => exact e2c l ho
